@@ -353,7 +353,15 @@ def check(ctx, run):
             if p.end[0] != 'return' or is_call(deref_all(p.ret), 'FromResidual::from_residual'):
                 continue
             d = [c for c in p.conds if c[0][0] == 'discr' and is_call(c[0][1], 'VecDeque::pop_front')]
-            ws = [const_of(e[2][1]) for e in p.calls() if called(e[1], 'WriteBytesExt::write_u32')]
+            ws = []
+            for e in p.calls():
+                if called(e[1], 'WriteBytesExt::write_u32') and len(e[2]) == 2:
+                    ws.append(const_of(e[2][1]))
+                elif called(e[1], 'Vec::extend_from_slice') and len(e[2]) == 2:
+                    # the same word appended as `&x.to_be_bytes()`
+                    for s_ in subterms(e[2][1]):
+                        if s_[0] == 'call' and canon(s_[1]).endswith('to_be_bytes') and s_[2]:
+                            ws.append(const_of(s_[2][0]))
             if d:
                 got['some' if (d[0][1] == 'eq' and d[0][2] == 1) else 'none'] = ws
             else:
@@ -369,7 +377,7 @@ def check(ctx, run):
                         elif called(t[1], 'VecDeque::is_empty'):
                             got['none' if c[2] else 'some'] = ws
         ok = got.get('some') == [cv(f, 'SCALAR_CONTAINER_TAG'), cv(f, 'TRUE_TAG')] and got.get('none') == [cv(f, 'SCALAR_CONTAINER_TAG'), cv(f, 'FALSE_TAG')]
-        if not ok and set(got) != {'some', 'none'}:
+        if not ok and (set(got) != {'some', 'none'} or any(not v or None in v for v in got.values())):
             run.undecided('R15.4', b.path, 'boolean', f'the test "is there a position" was not recognised on the paths of this function (found {sorted(got)}): the words written are not decided', f'{b.file}:{b.line}')
         else:
             (run.proved if ok else run.violation)('R15.4', b.path, 'boolean', 'scalar header + TRUE_TAG iff a position exists, FALSE_TAG otherwise' if ok else f'words written: {got}', f'{b.file}:{b.line}')
